@@ -159,9 +159,11 @@ func (f *TypedReverseBoltCursor) Next() {
 
 func (f *TypedReverseBoltCursor) Seek(val []byte) {
 	searchVal := PrependFieldType(f.fieldType, val)
-	f.key, _ = f.cursor.Seek(searchVal)
-	f.valid = f.key != nil
-	if !bytes.Equal(searchVal, f.key) {
+	key, _ := f.cursor.Seek(searchVal)
+	if bytes.Equal(searchVal, key) {
+		// exact match, strip the type tag like everywhere else
+		f.setTypedKey(key, nil)
+	} else {
 		f.Next()
 	}
 }
